@@ -269,6 +269,10 @@ def plan_c07(tier, seed):
             if sum(cores) <= mx:
                 jobs.append(with_delay_fallback(wf("C07", "g13", 1, 1, mx, oracles=o, tier=tier, cores=cores, extra="barrier", events_dep=False, id=f"C07-g13-barrier-m{mx}-c{cs}")))
     jobs.append(with_delay_fallback(wf("C07", "g2", 2, 1, 2, oracles=o, tier=tier, extra="barrier", events_dep=False, id="C07-g2-barrier-2items-m2")))
+    # shell-command bodies (the slot is held around the exec seam)
+    for mx, cores in ((2, [1, 2]), (2, [2, 2]), (3, [2, 2]), (2, [1, 1])):
+        jobs.append(with_delay_fallback(wf("C07", "g13", 1, 1, mx, "cmd", oracles=o, tier=tier, cores=cores, events_dep=False, id=f"C07-g13-free-m{mx}-c{''.join(map(str, cores))}-cmd")))
+    jobs.append(with_delay_fallback(wf("C07", "g2", 2, 1, 2, "cmd", oracles=o, tier=tier, cores=[2], events_dep=False, id="C07-g2-i2-m2-c2-cmd")))
     for mx in (1, 2):
         for cores in ([mx + 1], [1, mx + 1], [mx + 2, 1]):
             jobs.append(wf("C07", "g13", 1, 1, mx, oracles=["nohang", "c07-oversize"], tier=tier, cores=cores, events_dep=False, id=f"C07-oversize-m{mx}-c{''.join(map(str, cores))}"))
@@ -294,6 +298,7 @@ def plan_c08(tier, seed):
     add("g2", 3, 1, 3, pre={"in1.txt.p": "p.out(in=in1.txt;)", "in2.txt.p": "p.out(in=in2.txt;)"}, id="C08-g2-i3-m3-pre12")
     add("g2", 3, 1, 2, pre={"in1.txt.p": "p.out(in=in1.txt;)"}, id="C08-g2-i3-m2-pre1")
     add("g3", 2, 1, 2, pre={"in1.txt.p.q": "q.out(in=p.out(in=in1.txt;);)"}, id="C08-g3-i2-m2-preq1")
+    add("g2", 2, 1, 2, kind="cmd", id="C08-g2-i2-m2-cmd"); add("g3", 2, 1, 2, kind="cmd", id="C08-g3-i2-m2-cmd"); add("g5b", 1, 1, 2, kind="cmd", id="C08-g5b-i1-m2-cmd")
     if tier != "quick":
         add("g2", 3, 2, 2); add("g3", 3, 1, 3); add("g3", 3, 1, 2); add("g5b", 2, 1, 2); add("g5b", 2, 1, 3); add("g12", 3, 1, 2); add("g12", 4, 2, 3); add("g7", 2, 1, 2)
     jobs.extend(mem_jobs("C08", o, tier, [("g2", 2, 2), ("g5b", 1, 2)] if tier == "quick" else [("g2", 2, 2), ("g5b", 1, 2), ("g3", 2, 2), ("g2", 3, 2)], extra="recorder"))
